@@ -7,12 +7,20 @@
 
 namespace etl {
 
+namespace detail {
+template <typename R1, typename R2>
+struct ratio_add_impl {
+    static constexpr intmax_t g = gcd(R1::den, R2::den);
+    using type = typename ratio<R1::num * (R2::den / g) + R2::num * (R1::den / g), R1::den * (R2::den / g)>::type;
+};
+} // namespace detail
+
 /// \brief The alias template ratio_add denotes the result of adding two
 /// exact rational fractions represented by the ratio specializations R1
 /// and R2.
 /// \ingroup ratio
 template <typename R1, typename R2>
-using ratio_add = ratio<R1::num * R2::den + R2::num * R1::den, R1::den * R2::den>;
+using ratio_add = typename detail::ratio_add_impl<R1, R2>::type;
 
 } // namespace etl
 
